@@ -56,9 +56,9 @@ func (x *Exec) mapValAddr(mt *types.Map, m, k *Term) *Term {
 	t := x.tt.UF("mv$"+typeName(mt), "Int", m, k)
 	if !x.addrSeen[t.id] {
 		x.addrSeen[t.id] = true
-		x.addFactRaw(x.tt.Gt(t, x.tt.IntLit(0)))
-		x.addFactRaw(x.tt.Eq(x.tt.UF("birth$", "Int", t), x.tt.UF("birth$", "Int", m)))
-		x.addFactRaw(x.tt.Not(x.tt.UF("isbase$", "Bool", t)))
+		x.addPermFact(x.tt.Gt(t, x.tt.IntLit(0)))
+		x.addPermFact(x.tt.Eq(x.tt.UF("birth$", "Int", t), x.tt.UF("birth$", "Int", m)))
+		x.addPermFact(x.tt.Not(x.tt.UF("isbase$", "Bool", t)))
 	}
 	return t
 }
@@ -120,10 +120,10 @@ func (x *Exec) mapLen(st *State, m *Term, mt *types.Map) *Term {
 	c := tt.UF("card$"+ks, "Int", d)
 	if !x.addrSeen[-c.id] {
 		x.addrSeen[-c.id] = true
-		x.addFactRaw(tt.Ge(c, tt.IntLit(0)))
-		x.addFactRaw(tt.Le(c, tt.IntLit(1<<40)))
+		x.addPermFact(tt.Ge(c, tt.IntLit(0)))
+		x.addPermFact(tt.Le(c, tt.IntLit(1<<40)))
 		_, inner := splitArraySort(x.heapSorts["D$"+typeName(mt)])
-		x.addFactRaw(tt.Eq(tt.Eq(c, tt.IntLit(0)), tt.Eq(d, tt.ConstArray(inner, tt.False()))))
+		x.addPermFact(tt.Eq(tt.Eq(c, tt.IntLit(0)), tt.Eq(d, tt.ConstArray(inner, tt.False()))))
 	}
 	if x.bv {
 		return tt.App("(_ int2bv 64)", bvSort(64), c)
